@@ -1,6 +1,6 @@
 (* C07 for the family id3f: saving again is the identity whenever the padding callback, offered the padding now in the
-   file, returns it; for the default policy this holds for padding up to 1 KiB and whenever the first save kept the
-   file size -- NOT in general, because ID3.save feeds the policy a file size that includes the old tag. *)
+   file, returns it; with the default policy the second save is byte-identical unless the first save removed an ID3v1
+   tag (the policy is fed the size of everything behind the ID3v2 tag, ID3v1 tag included). *)
 From Coq Require Import ZArith List Bool Lia.
 Import ListNotations.
 Require Import Base.Py Base.ZList Gen.Gen_tags Model.Splice Model.Id3Util Model.Fam_id3f
@@ -10,10 +10,18 @@ Open Scope Z_scope.
 Theorem C07_id3f_second_save : forall f fr o f' s',
   id3f_wf f = true -> frames_ok (o_v2 o) fr = true -> v1_hyp (mid_of f) o ->
   id3f_save f fr o = Ok f' -> id3f_parse f' = Ok s' ->
-  o_cb o (id3f_padding s') (zlen f') = id3f_padding s' ->
+  o_cb o (id3f_padding s') (zlen f' - tag_size s') = id3f_padding s' ->
   id3f_save f' fr o = Ok f'.
 Proof. exact c07_second_save. Qed.
 Print Assumptions C07_id3f_second_save.
+
+Theorem C07_id3f_default_idempotent : forall f s fr o f',
+  id3f_wf f = true -> id3f_parse f = Ok s -> frames_ok (o_v2 o) fr = true -> v1_hyp (i_mid s) o ->
+  o_cb o = get_default_padding ->
+  zlen (optb (i_v1 s)) <= zlen (optb (v1_after (o_v1 o) (o_v1bytes o) (i_v1 s))) ->
+  id3f_save f fr o = Ok f' -> id3f_save f' fr o = Ok f'.
+Proof. exact c07_default_idempotent. Qed.
+Print Assumptions C07_id3f_default_idempotent.
 
 Theorem C07_id3f_default_moderate : forall f fr o f' s',
   id3f_wf f = true -> frames_ok (o_v2 o) fr = true -> v1_hyp (mid_of f) o ->
@@ -23,14 +31,6 @@ Theorem C07_id3f_default_moderate : forall f fr o f' s',
 Proof. exact c07_default_moderate. Qed.
 Print Assumptions C07_id3f_default_moderate.
 
-Theorem C07_id3f_default_same_size : forall f fr o f' s',
-  id3f_wf f = true -> frames_ok (o_v2 o) fr = true -> v1_hyp (mid_of f) o ->
-  o_cb o = get_default_padding ->
-  id3f_save f fr o = Ok f' -> id3f_parse f' = Ok s' -> zlen f' = zlen f ->
-  id3f_save f' fr o = Ok f'.
-Proof. exact c07_default_same_size. Qed.
-Print Assumptions C07_id3f_default_same_size.
-
 (* load + save unchanged with the tag's own version is lossless at container level *)
 Theorem C07_id3f_lossless : forall f s t o f',
   id3f_wf f = true -> id3f_parse f = Ok s -> i_tag s = Some t -> o_v2 o = t_ver t -> v1_hyp (i_mid s) o ->
@@ -39,11 +39,12 @@ Theorem C07_id3f_lossless : forall f s t o f',
 Proof. exact c07_lossless. Qed.
 Print Assumptions C07_id3f_lossless.
 
-(* default-policy idempotence in general is refuted: 12 000 000 bytes of free tag space in a 12 000 527 byte file *)
-Theorem C07_id3f_default_not_idempotent_refuted :
-  exists p0 s0, 0 <= p0 <= s0 /\
+(* the hypothesis of C07_id3f_default_idempotent is necessary: 10250 bytes of padding behind which lie 1000 bytes
+   (ID3v1 tag included) are kept by the first default save; if that save removed the ID3v1 tag (v1=0), the second one
+   sees 872 bytes, its threshold drops to 10248 and the padding is cut to the policy's minimum *)
+Theorem C07_id3f_default_v1_removed_refuted :
+  exists p0 s0, 0 <= p0 /\ 128 <= s0 /\
     let r := get_default_padding p0 s0 in
-    let s1 := s0 - p0 + r in
-    0 <= r /\ get_default_padding r s1 <> r.
-Proof. exact c07_default_not_idempotent_arith. Qed.
-Print Assumptions C07_id3f_default_not_idempotent_refuted.
+    r = p0 /\ get_default_padding r (s0 - 128) <> r.
+Proof. exact c07_default_v1_removed_not_idempotent_arith. Qed.
+Print Assumptions C07_id3f_default_v1_removed_refuted.
